@@ -84,22 +84,27 @@ CLAIMS = {
   "ping/pong/echo paths go through io.Copy / a ControlWriter over the same buffer and are abstracted (havoc). "
   "Assumes a transport never returns the library's own ClosedError."),
  "C09": ("proof",
-  "PARTIAL: proof of the pure text helpers the server handshake is built from, for all inputs: bsplit3 (cuts at the "
-  "first two separators), httpParseRequestLine and httpParseVersion (HTTP/<digits>.<digits>, value for one-digit "
-  "versions), httpParseHeaderLine/btrim (blanks around key and value ignored, nothing else dropped), "
-  "canonicalizeHeaderKey (= ASCII CanonicalMIMEHeaderKey, so header names compare case-insensitively), asciiToInt.",
-  "Upgrader.Upgrade / HTTPUpgrader.Upgrade themselves (header bookkeeping, nonce check, response writing, callbacks, "
-  "bufio, net/http) are NOT under contract: the iff-statement of C09 is not proved, only that its parsing primitives "
-  "do what the handshake assumes. bytes.IndexByte/bytes.Equal are assumed contracts."),
+  "PARTIAL. (1) Decision logic of both upgraders, with the request seen as a ghost sequence of lines (Upgrader) or as "
+  "the parsed net/http request (HTTPUpgrader): a failed line read is never swallowed, success implies exactly one "
+  "response and it is the 101 one, a failure before the response implies an error response whose status is the "
+  "rejecting callback's code or 500, HTTPUpgrader accepts only GET-length methods, HTTP/1.x (x >= 1) and a non-empty "
+  "Host (one defect found and fixed: HTTP/2 was accepted). (2) The pure text helpers, for all inputs: bsplit3, "
+  "httpParseRequestLine/Version/HeaderLine, btrim, canonicalizeHeaderKey (= ASCII CanonicalMIMEHeaderKey), asciiToInt; "
+  "btsSelectProtocol returns a copy.",
+  "NOT proved: what the upgraders do with header *contents* (which header lines were seen, the key being 24 bytes, "
+  "the accept value written, subprotocol/extension selection): the response writers, readLine, hijack, httpGetHeader, "
+  "token scanning and every user callback are trusted/abstracted contracts (listed in evidence); map lookups yield "
+  "arbitrary values. The iff-statement of C09 is therefore not a theorem here."),
  "C10": ("proof",
-  "PARTIAL: proof that the response status line is accepted with status 101 only if its status token is literally "
-  "'101' between the first two blanks (httpParseResponseLine, bsplit3, asciiToInt: digits only, exact value for up to "
-  "three digits; two defects found and fixed), that the version has the HTTP/<digits>.<digits> shape, that header "
-  "lines are split/trimmed/canonicalised as for C09, that hostport appends the default port exactly when the "
-  "host has no explicit one, and that checkAcceptFromNonce accepts exactly the 28 bytes computed from the key "
-  "(SHA-1/base64 uninterpreted).",
-  "Dialer.Upgrade / Dialer.Dial (request writing, header checks, accept-key comparison, extension matching, buffer "
-  "hand-over) are NOT under contract. hostport assumes a host with at most one ']'."),
+  "PARTIAL. (1) Decision logic of Dialer.Upgrade over a ghost sequence of response lines: a failed line read is "
+  "never swallowed, the read buffer is handed back exactly when bytes are still buffered, a returned subprotocol is "
+  "one of the requested strings (not a view of the read buffer). (2) For all inputs: the status line is accepted "
+  "with status 101 only if its status token is literally '101' (two defects found and fixed), version shape, header "
+  "line splitting/trimming/canonicalisation, hostport default ports, checkAcceptFromNonce accepts exactly the 28 "
+  "bytes computed from the key (SHA-1/base64 uninterpreted).",
+  "NOT proved: the request bytes written (httpWriteUpgradeRequest is a trusted frame-only contract), which response "
+  "headers were seen and their values, extension matching, Dialer.Dial (network, TLS, timeouts). readLine, initNonce "
+  "and the callbacks are trusted/abstracted; hostport assumes a host with at most one ']'."),
  "C12": ("proof",
   "Proof of the two glue components for all inputs: the tail-withholding proxy cbuf (bytes that reached the "
   "destination followed by the withheld bytes are exactly the bytes written; up to four withheld; zero padded) and the "
@@ -130,8 +135,9 @@ CLAIMS = {
   "Proof, with the transport as an arbitrary ghost stream that may end or fail at any byte, that ReadHeader/ReadFrame/"
   "readHeader/NextFrame return a non-nil error whenever the stream ends inside a header, a control payload or "
   "(ReadFrame) the payload, and that wsutil.Writer reports the first transport error and stays failed.",
-  "Reader.Read's cut detection (frame ended with bytes still owed => ErrUnexpectedEOF) is proved with the chain as a "
-  "black box; Reader.Discard reports a cut payload (defect found and fixed)."),
+  "Reader.Read's cut detection (a clean io.EOF implies the whole announced payload was there) is proved with the "
+  "chain as a black box; Reader.Discard reports a cut payload (defect found and fixed); both handshake functions "
+  "never swallow a failed line read."),
  "C17": ("proof",
   "Proof of freshness/aliasing clauses: MaskFrame/UnmaskFrame/MaskFrameWith return a payload that does not share "
   "memory with the argument; wsutil.Writer.Write/WriteThrough and CipherWriter.Write do not retain or modify the "
